@@ -185,4 +185,51 @@ def sortEffect (g : MGraph) : Bool × List (Nat × List Nat) :=
   | none => (true, graphsOf g)
   | some r => (false, r)
 
+/-! ### Specification predicates
+
+Used in the hypotheses / conclusions of the C12 theorems.  They are executable (decidable) so that
+the harness can compare them, on every generated case, with its own independent reading of
+"well scoped" and "already in order" on the real objects (driver command `sort.hyp`). -/
+
+/-- `a` occurs strictly before `b` in `l` -/
+def Before {α : Type} (l : List α) (a b : α) : Prop := ∃ l1 l2, l = l1 ++ a :: l2 ∧ b ∈ l2
+
+/-- executable form of `Before` -/
+def beforeB {α : Type} [DecidableEq α] : List α → α → α → Bool
+  | [], _, _ => false
+  | x :: t, a, b => (decide (x = a) && decide (b ∈ t)) || beforeB t a b
+
+theorem beforeB_iff {α : Type} [DecidableEq α] (l : List α) (a b : α) :
+    beforeB l a b = true ↔ Before l a b := by
+  induction l with
+  | nil => simp [beforeB, Before]
+  | cons x t ih =>
+    simp only [beforeB, Bool.or_eq_true, Bool.and_eq_true, decide_eq_true_eq, ih]
+    constructor
+    · rintro (⟨rfl, hb⟩ | ⟨l1, l2, rfl, hb⟩)
+      · exact ⟨[], t, rfl, hb⟩
+      · exact ⟨x :: l1, l2, rfl, hb⟩
+    · rintro ⟨l1, l2, heq, hb⟩
+      cases l1 with
+      | nil => simp at heq; exact Or.inl ⟨heq.1, heq.2 ▸ hb⟩
+      | cons y l1 => simp at heq; exact Or.inr ⟨l1, l2, heq.2, hb⟩
+
+instance {α : Type} [DecidableEq α] (l : List α) (a b : α) : Decidable (Before l a b) :=
+  decidable_of_iff _ (beforeB_iff l a b)
+
+/-- **well-scoped**: a value produced by a node `x` of graph `h` is used only by nodes of `h` or
+    nodes nested (at any depth) in nodes of `h` — i.e. inside the span of `h`. -/
+def WellScoped (g : MGraph) : Prop :=
+  ∀ h ∈ allGraphs g, ∀ x ∈ h.2, ∀ u ∈ nodesOf g, some x.id ∈ u.inputs → u ∈ entsNs h.1 h.2
+
+/-- **already ordered** (the property's order clause for one graph `h`): whenever node `p` of `h`
+    produces a value used by node `c` of `h` or by a node nested at any depth inside `c`
+    (`u ∈ entsN h.1 c`, the span of `c`), `p` comes before `c` in the node sequence of `h`. -/
+def OrderedG (h : MGraph) : Prop :=
+  ∀ p ∈ h.2, ∀ c ∈ h.2, (∃ u ∈ entsN h.1 c, some p.id ∈ u.inputs) →
+    Before (h.2.map MNode.id) p.id c.id
+
+instance (g : MGraph) : Decidable (WellScoped g) := by unfold WellScoped; infer_instance
+instance (h : MGraph) : Decidable (OrderedG h) := by unfold OrderedG; infer_instance
+
 end IrVerif.Sort
